@@ -1,0 +1,351 @@
+//go:build verif
+
+// Verification hooks: an add-only, in-package surface used by the model
+// checking harness under /verif. Nothing here is compiled unless the build
+// tag "verif" is set, and nothing here changes existing behaviour.
+
+package memberlist
+
+import (
+	"bytes"
+	"net"
+	"sort"
+	"sync/atomic"
+	"time"
+)
+
+// ---------------------------------------------------------------- wire types
+
+type (
+	VAlive           = alive
+	VSuspect         = suspect
+	VDead            = dead
+	VPing            = ping
+	VIndirectPingReq = indirectPingReq
+	VAckResp         = ackResp
+	VNackResp        = nackResp
+	VErrResp         = errResp
+	VPushPullHeader  = pushPullHeader
+	VPushNodeState   = pushNodeState
+	VUserMsgHeader   = userMsgHeader
+	VCompress        = compress
+)
+
+const (
+	VPingMsg         = uint8(pingMsg)
+	VIndirectPingMsg = uint8(indirectPingMsg)
+	VAckRespMsg      = uint8(ackRespMsg)
+	VSuspectMsg      = uint8(suspectMsg)
+	VAliveMsg        = uint8(aliveMsg)
+	VDeadMsg         = uint8(deadMsg)
+	VPushPullMsg     = uint8(pushPullMsg)
+	VCompoundMsg     = uint8(compoundMsg)
+	VUserMsg         = uint8(userMsg)
+	VCompressMsg     = uint8(compressMsg)
+	VEncryptMsg      = uint8(encryptMsg)
+	VNackRespMsg     = uint8(nackRespMsg)
+	VHasCrcMsg       = uint8(hasCrcMsg)
+	VErrMsg          = uint8(errMsg)
+	VHasLabelMsg     = uint8(hasLabelMsg)
+
+	VMaxPushStateBytes    = maxPushStateBytes
+	VMaxPushStateNodes    = maxPushStateNodes
+	VMaxUserMsgBytes      = maxUserMsgBytes
+	VMaxPushPullRequests  = maxPushPullRequests
+	VMaxDecompressedBytes = maxDecompressedBytes
+)
+
+// ---------------------------------------------------------------- codecs
+
+func VEncode(t uint8, v any, newTime bool) ([]byte, error) {
+	b, err := encode(messageType(t), v, newTime)
+	if err != nil {
+		return nil, err
+	}
+	return b.Bytes(), nil
+}
+func VDecode(buf []byte, out any) error  { return decode(buf, out) }
+func VMakeCompound(msgs [][]byte) []byte { return makeCompoundMessage(msgs).Bytes() }
+func VMakeCompounds(msgs [][]byte) [][]byte {
+	var out [][]byte
+	for _, b := range makeCompoundMessages(msgs) {
+		out = append(out, b.Bytes())
+	}
+	return out
+}
+func VDecodeCompound(buf []byte) (int, [][]byte, error) { return decodeCompoundMessage(buf) }
+func VCompressPayload(inp []byte, newTime bool) ([]byte, error) {
+	b, err := compressPayload(inp, newTime)
+	if err != nil {
+		return nil, err
+	}
+	return b.Bytes(), nil
+}
+func VDecompressPayload(msg []byte) ([]byte, error) { return decompressPayload(msg) }
+func VEncryptPayload(vsn uint8, key, msg, data []byte) ([]byte, error) {
+	var buf bytes.Buffer
+	err := encryptPayload(encryptionVersion(vsn), key, msg, data, &buf)
+	return buf.Bytes(), err
+}
+func VDecryptPayload(keys [][]byte, msg, data []byte) ([]byte, error) {
+	return decryptPayload(keys, msg, data)
+}
+func VEncryptOverhead(vsn uint8) int        { return encryptOverhead(encryptionVersion(vsn)) }
+func VEncryptedLength(vsn uint8, n int) int { return encryptedLength(encryptionVersion(vsn), n) }
+func VLabelOverhead(label string) int       { return labelOverhead(label) }
+func VSuspicionTimeout(mult, n int, interval time.Duration) time.Duration {
+	return suspicionTimeout(mult, n, interval)
+}
+func VRetransmitLimit(mult, n int) int { return retransmitLimit(mult, n) }
+func VRemainingSuspicionTime(n, k int32, elapsed, min, max time.Duration) time.Duration {
+	return remainingSuspicionTime(n, k, elapsed, min, max)
+}
+func VPushPullScale(interval time.Duration, n int) time.Duration { return pushPullScale(interval, n) }
+
+// ---------------------------------------------------------------- node
+
+// VNewUnscheduled is Create without schedule(): listeners run, tickers do not.
+func VNewUnscheduled(conf *Config) (*Memberlist, error) {
+	m, err := newMemberlist(conf)
+	if err != nil {
+		return nil, err
+	}
+	if err := m.setAlive(); err != nil {
+		_ = m.Shutdown()
+		return nil, err
+	}
+	return m, nil
+}
+
+func (m *Memberlist) VSchedule()   { m.schedule() }
+func (m *Memberlist) VDeschedule() { m.deschedule() }
+func (m *Memberlist) VProbe()      { m.probe() }
+func (m *Memberlist) VGossip()     { m.gossip() }
+func (m *Memberlist) VPushPull()   { m.pushPull() }
+func (m *Memberlist) VResetNodes() { m.resetNodes() }
+func (m *Memberlist) VPushPullNode(addr, name string, join bool) error {
+	return m.pushPullNode(Address{Addr: addr, Name: name}, join)
+}
+func (m *Memberlist) VProbeNodeByName(name string) bool {
+	m.nodeLock.RLock()
+	n, ok := m.nodeMap[name]
+	var c nodeState
+	if ok {
+		c = *n
+	}
+	m.nodeLock.RUnlock()
+	if !ok {
+		return false
+	}
+	m.probeNode(&c)
+	return true
+}
+
+func (m *Memberlist) VAliveNode(a *VAlive, notify chan struct{}, bootstrap bool) {
+	m.aliveNode(a, notify, bootstrap)
+}
+func (m *Memberlist) VSuspectNode(s *VSuspect)                 { m.suspectNode(s) }
+func (m *Memberlist) VDeadNode(d *VDead)                       { m.deadNode(d) }
+func (m *Memberlist) VMergeState(r []VPushNodeState)           { m.mergeState(r) }
+func (m *Memberlist) VVerifyProtocol(r []VPushNodeState) error { return m.verifyProtocol(r) }
+func (m *Memberlist) VMergeRemoteState(join bool, r []VPushNodeState, user []byte) error {
+	return m.mergeRemoteState(join, r, user)
+}
+func (m *Memberlist) VIngestPacket(buf []byte, from net.Addr, ts time.Time) {
+	m.ingestPacket(buf, from, ts)
+}
+func (m *Memberlist) VHandleCommand(buf []byte, from net.Addr, ts time.Time) {
+	m.handleCommand(buf, from, ts)
+}
+func (m *Memberlist) VHandleConn(conn net.Conn) { m.handleConn(conn) }
+func (m *Memberlist) VSendMsg(addr, name string, msg []byte) error {
+	return m.sendMsg(Address{Addr: addr, Name: name}, msg)
+}
+func (m *Memberlist) VEncodeAndSendMsg(addr, name string, t uint8, msg any) error {
+	return m.encodeAndSendMsg(Address{Addr: addr, Name: name}, messageType(t), msg)
+}
+func (m *Memberlist) VRawSendMsgPacket(addr, name string, node *Node, msg []byte) error {
+	return m.rawSendMsgPacket(Address{Addr: addr, Name: name}, node, msg)
+}
+func (m *Memberlist) VRawSendMsgStream(conn net.Conn, buf []byte, label string) error {
+	return m.rawSendMsgStream(conn, buf, label)
+}
+func (m *Memberlist) VSendLocalState(conn net.Conn, join bool, label string) error {
+	return m.sendLocalState(conn, join, label)
+}
+func (m *Memberlist) VQueueBroadcast(node string, msg []byte, notify chan struct{}) {
+	m.queueBroadcast(node, msg, notify)
+}
+func (m *Memberlist) VGetBroadcasts(overhead, limit int) [][]byte {
+	return m.getBroadcasts(overhead, limit)
+}
+func (m *Memberlist) VBroadcasts() *TransmitLimitedQueue { return m.broadcasts }
+func (m *Memberlist) VNextSeqNo() uint32                 { return m.nextSeqNo() }
+func (m *Memberlist) VEncryptionVersion() uint8          { return uint8(m.encryptionVersion()) }
+func (m *Memberlist) VApplyAwarenessDelta(d int)         { m.awareness.ApplyDelta(d) }
+func (m *Memberlist) VSendPingAndWaitForAck(addr, name string, seq uint32, deadline time.Time) (bool, error) {
+	return m.sendPingAndWaitForAck(Address{Addr: addr, Name: name}, ping{SeqNo: seq, Node: name}, deadline)
+}
+
+// VNodeRec is a read-only copy of one membership record.
+type VNodeRec struct {
+	Name        string
+	Addr        []byte
+	Port        uint16
+	Meta        []byte
+	Vsn         [6]uint8
+	Incarnation uint32
+	State       NodeStateType
+	StateChange time.Time
+	HasTimer    bool
+	// Suspicion timer details (valid when HasTimer).
+	SuspN       int32
+	SuspK       int32
+	SuspMin     time.Duration
+	SuspMax     time.Duration
+	SuspStart   time.Time
+	Confirmers  []string
+	InNodesList bool
+}
+
+// VSnap is a read-only dump of the node's protocol state.
+type VSnap struct {
+	Name         string
+	Recs         []VNodeRec // sorted by name
+	Order        []string   // m.nodes order
+	ProbeIndex   int
+	NumNodes     uint32
+	Incarnation  uint32
+	SeqNo        uint32
+	Leave        bool
+	Shutdown     bool
+	AckHandlers  int
+	HighQ, LowQ  int
+	PushPullReq  uint32
+	Health       int
+	Queue        []VQItem
+	QueueIDGen   int64
+	OrphanTimers []string // timers whose node has no record
+	Tickers      int
+}
+
+func (m *Memberlist) vrec(n *nodeState) VNodeRec {
+	r := VNodeRec{
+		Name: n.Name, Addr: append([]byte(nil), n.Addr...), Port: n.Port,
+		Meta:        append([]byte(nil), n.Meta...),
+		Vsn:         [6]uint8{n.PMin, n.PMax, n.PCur, n.DMin, n.DMax, n.DCur},
+		Incarnation: n.Incarnation, State: n.State, StateChange: n.StateChange,
+	}
+	if t, ok := m.nodeTimers[n.Name]; ok {
+		r.HasTimer = true
+		r.SuspN, r.SuspK, r.SuspMin, r.SuspMax, r.SuspStart = t.n.Load(), t.k, t.min, t.max, t.start
+		for c := range t.confirmations {
+			r.Confirmers = append(r.Confirmers, c)
+		}
+		sort.Strings(r.Confirmers)
+	}
+	return r
+}
+
+// VSnapshotLocked must only be called with nodeLock already held by the
+// calling goroutine (i.e. from inside a delegate callback).
+func (m *Memberlist) VSnapshotLocked() *VSnap {
+	s := &VSnap{Name: m.config.Name}
+	inList := map[*nodeState]bool{}
+	for _, n := range m.nodes {
+		s.Order = append(s.Order, n.Name)
+		inList[n] = true
+	}
+	for _, n := range m.nodeMap {
+		r := m.vrec(n)
+		r.InNodesList = inList[n]
+		s.Recs = append(s.Recs, r)
+	}
+	sort.Slice(s.Recs, func(i, j int) bool { return s.Recs[i].Name < s.Recs[j].Name })
+	for name := range m.nodeTimers {
+		if _, ok := m.nodeMap[name]; !ok {
+			s.OrphanTimers = append(s.OrphanTimers, name)
+		}
+	}
+	sort.Strings(s.OrphanTimers)
+	s.ProbeIndex = m.probeIndex
+	return s
+}
+
+// VSnapshot takes the locks itself.
+func (m *Memberlist) VSnapshot() *VSnap {
+	m.nodeLock.RLock()
+	s := m.VSnapshotLocked()
+	m.nodeLock.RUnlock()
+	s.NumNodes = m.numNodes.Load()
+	s.Incarnation = m.incarnation.Load()
+	s.SeqNo = atomic.LoadUint32(&m.sequenceNum)
+	s.Leave = m.leave.Load() == 1
+	s.Shutdown = m.shutdown.Load() == 1
+	m.ackLock.Lock()
+	s.AckHandlers = len(m.ackHandlers)
+	m.ackLock.Unlock()
+	m.msgQueueLock.Lock()
+	s.HighQ, s.LowQ = m.highPriorityMsgQueue.Len(), m.lowPriorityMsgQueue.Len()
+	m.msgQueueLock.Unlock()
+	s.PushPullReq = m.pushPullReq.Load()
+	s.Health = m.awareness.GetHealthScore()
+	s.Queue, s.QueueIDGen = m.broadcasts.VDump()
+	m.tickerLock.Lock()
+	s.Tickers = len(m.tickers)
+	m.tickerLock.Unlock()
+	return s
+}
+
+// ---------------------------------------------------------------- queue
+
+// VQItem is one queued broadcast, in queue order (first = handed out first).
+type VQItem struct {
+	Transmits int
+	MsgLen    int64
+	ID        int64
+	Name      string
+	Msg       []byte
+	B         Broadcast
+}
+
+func (q *TransmitLimitedQueue) VDump() ([]VQItem, int64) {
+	q.mu.Lock()
+	defer q.mu.Unlock()
+	var out []VQItem
+	q.walkReadOnlyLocked(false, func(cur *limitedBroadcast) bool {
+		out = append(out, VQItem{cur.transmits, cur.msgLen, cur.id, cur.name, cur.b.Message(), cur.b})
+		return true
+	})
+	return out, q.idGen
+}
+
+// VNameIndex returns the names in the by-name index and whether each indexed
+// item is still present in the ordered queue.
+func (q *TransmitLimitedQueue) VNameIndex() map[string]bool {
+	q.mu.Lock()
+	defer q.mu.Unlock()
+	out := map[string]bool{}
+	for name, lb := range q.tm {
+		out[name] = q.tq != nil && q.tq.Has(lb)
+	}
+	return out
+}
+
+// ---------------------------------------------------------------- suspicion / awareness
+
+type VSuspicion struct{ s *suspicion }
+
+func VNewSuspicion(from string, k int, min, max time.Duration, fn func(int)) *VSuspicion {
+	return &VSuspicion{newSuspicion(from, k, min, max, fn)}
+}
+func (v *VSuspicion) Confirm(from string) bool { return v.s.Confirm(from) }
+func (v *VSuspicion) N() int32                 { return v.s.n.Load() }
+func (v *VSuspicion) Stop() bool               { return v.s.timer.Stop() }
+
+type VAwareness struct{ a *awareness }
+
+func VNewAwareness(max int) *VAwareness                          { return &VAwareness{newAwareness(max, nil)} }
+func (v *VAwareness) ApplyDelta(d int)                           { v.a.ApplyDelta(d) }
+func (v *VAwareness) GetHealthScore() int                        { return v.a.GetHealthScore() }
+func (v *VAwareness) ScaleTimeout(d time.Duration) time.Duration { return v.a.ScaleTimeout(d) }
